@@ -128,6 +128,14 @@ Definition C14_repeatable_full : Prop :=
     transform fuel v m s = Ok (ma, ra) -> transform fuel v m' s = Ok (mb, rb) ->
     observe mb (touch_poss mb rb) = observe ma (touch_poss ma ra).
 
+(* full statement (not proved): the healing loop terminates. The measure is
+   the number of fields, arguments and input fields reachable from the
+   registry (a type is rebuilt only when one of them was dropped); the number
+   of stale references is not monotone. *)
+Definition C14_heal_terminates_full : Prop :=
+  forall m s, fresh_ok m -> wf_schema m s ->
+    exists fuel, forall fuel', (fuel <= fuel')%nat -> fix_type_references fuel' m s <> OutOfFuel.
+
 (* ------------------------------------------------------------ non-vacuity *)
 Local Open Scope string_scope.
 Definition ex_heap : heap :=
